@@ -8,4 +8,16 @@ CHECKS = {
         "technique": T_EXH,
     },
 }
+CHECKS["C01"] = {
+    "text": "Depth-first explicit-state search over all sequences (depth<=3 on all JSON trees with <=4 nodes and depth<=2 on <=5 nodes in quick; depth<=3/<=5 nodes and depth<=4/<=4 nodes in thorough) of a 26-segment alphabet (child/descendant x name, index, slice, wildcard and multi-selector lists). A state is (document, reference nodelist); every transition applies one segment in the reference evaluator and runs the real compile()+find() on the whole query text; nodelists are compared as [(location, value identity)] in order with duplicates. A second pass runs every alternative spelling (shorthand, double quotes, blanks) of all depth<=2 queries.",
+    "ref": "DESIGN.md section 5, C01",
+    "note": "Trusted: reference evaluator mc/ref/eval.py (self-tested on the RFC example tables at setup and by tools/selftest.py). Paths whose reference nodelist became empty are not extended.",
+    "technique": T_EXH,
+}
+CHECKS["C06"] = {
+    "text": "The full product of ordered comparand pairs over a 47-entry table of JSON kinds (falsy values, equal int/float pairs, -0.0, non-BMP strings, arrays/objects differing only by bool-vs-number leaves) plus 'nothing', six operators and nine ways of producing a comparand (relative/absolute singular queries, index, value(), length(), literals in several spellings on either side) is evaluated through find() and compared with the RFC comparison table. 226 908 (pair, operator, production) states per run, none sampled.",
+    "ref": "DESIGN.md section 5, C06",
+    "note": "Trusted: comparison table transcription (DESIGN.md appendix D), checked against the RFC's own table rows in the self-test.",
+    "technique": T_EXH,
+}
 PENDING = {}
